@@ -1,3 +1,4 @@
 (* C03 — all lemmas: C03_ops (each operation of the account-table model, frame, invariants over histories),
-   C03_refine (the abstract account map, the abstraction function, refinement step by step and over histories). *)
-From Verif Require Export Proofs.C03_ops Proofs.C03_refine.
+   C03_refine (the abstract account map, the abstraction function, refinement step by step and over histories),
+   C03_loader (well-formed ids are ASCII, requests naming a malformed id, which records the loader puts into the index). *)
+From Verif Require Export Proofs.C03_ops Proofs.C03_refine Proofs.C03_loader.
